@@ -143,6 +143,13 @@ pub fn assignments_with(
     }
 }
 
+fn miter_period(tier: Tier) -> u64 {
+    match tier {
+        Tier::Quick => 400,
+        Tier::Thorough => 400,
+    }
+}
+
 /// literal values occurring in the expressions below `roots` (the assignment dictionary)
 pub fn dictionary(ctx: &Context, roots: &[ExprRef]) -> Vec<BigUint> {
     let mut out: Vec<BigUint> = vec![];
@@ -478,6 +485,44 @@ impl Prop for C01 {
                         env.map(|e| format!("\nunder {}", show_env(ctx, &e))).unwrap_or_default()
                     ),
                 ));
+            }
+        }
+        // ---- solver-proposed assignment: where the assignments were only sampled, z3 is asked (for a slice
+        //      of the cases) for an assignment under which original and result differ; the reference
+        //      evaluator then judges that assignment like any other
+        if changed && !exhaustive && !rec.frozen && hash_bytes(tape) % miter_period(tier) == 1 {
+            if let Some((before, after)) = results.iter().find(|(b, a)| b != a).copied() {
+                let msyms = refeval::symbols_of(ctx, &[before, after]);
+                match crate::second::distinguish(ctx, before, after, &msyms) {
+                    crate::second::Miter::Equal => rec.label("miter:z3-finds-no-difference"),
+                    crate::second::Miter::NoAnswer => rec.label("miter:no-answer"),
+                    crate::second::Miter::Differ(env) => {
+                        // complete the assignment for symbols that only other roots use
+                        let mut full = envs[0].clone();
+                        for (k, v) in env.iter() {
+                            full.insert(*k, v.clone());
+                        }
+                        match judge_equiv(ctx, before, after, std::slice::from_ref(&full)) {
+                            Ok(()) => rec.label("miter:proposal-not-confirmed-by-the-reference"),
+                            Err((kind, msg, env)) => {
+                                let le: Vec<Env> = vec![env.clone().unwrap_or(full.clone())];
+                                let (tail, detail) = localise(ctx, before, &le, &kind);
+                                return Err(Failure::new(
+                                    format!("simplify/{}", tail),
+                                    format!(
+                                        "{}\nmode {} root: {}\nresult: {}\n{}\nunder {} (assignment proposed by z3, judged by the reference evaluator)",
+                                        detail,
+                                        mode,
+                                        refeval::show(ctx, before),
+                                        refeval::show(ctx, after),
+                                        msg,
+                                        show_env(ctx, &full)
+                                    ),
+                                ));
+                            }
+                        }
+                    }
+                }
             }
         }
         if changed && !syms.is_empty() {
